@@ -1075,6 +1075,12 @@ CORE_CLOS_FIXED = [
     "let g = null;\nfn mk() { let a = 0; return fn(n) { if n == 0 { a = 5; 0 } else { g(0); a } }; }\ng = mk();\nlet r = g(1);\n",
     "let g = null;\nfn mk(a) { return fn(n) { if n > 0 { a = a + n; g(n - 1); a } else { a } }; }\ng = mk(10);\nlet r = g(3);\nlet s = g(0);\n",
     "let g = null;\nfn mk() { let a = 1; return fn(n) { let before = a; if n > 0 { g(n - 1); } a = a * 2; before + a }; }\ng = mk();\nlet r = g(2);\n",
+    # re-entry through a second closure, the inner activation only reads; then the outer one assigns after the inner returned
+    "let g = null;\nlet h = null;\nfn mk() { let a = 3; return fn(n) { if n == 0 { a } else { let inner = h(); a = 5; inner * 10 + a } }; }\ng = mk();\nh = fn() { g(0) };\nlet r = g(1);\n",
+    # a closure that creates a child after assigning; a later activation of the parent creates another child
+    "fn mk() { let a = 1; return fn() { a = a + 1; return fn() { a }; }; }\nlet p = mk();\nlet c1 = p();\nlet r1 = c1();\nlet c2 = p();\nlet r2 = c2();\nlet r3 = c1();\n",
+    # the outer activation assigns, calls itself (inner reads the shared cell), then reads again
+    "let g = null;\nfn mk() { let a = 0; return fn(n) { if n == 0 { a } else { a = 7; let seen = g(0); seen + a } }; }\ng = mk();\nlet r = g(1);\n",
 ]
 
 
